@@ -32,7 +32,7 @@ import sys
 assert sys.version_info >= (3, 0)  # Bomb out if not running Python3
 
 
-import operator, re, time, traceback, uuid, fnmatch, opentracing
+import copy, operator, re, time, traceback, uuid, fnmatch, opentracing
 
 from datetime import datetime, timezone, timedelta
 from aioprometheus import Counter, Histogram
@@ -513,7 +513,9 @@ class StateEngine(object):
         https://docs.aws.amazon.com/step-functions/latest/dg/input-output-contextobject.html
         """
         if "Input" not in execution:
-            execution["Input"] = data
+            # (A copy: the states' ResultPath handling updates data in place,
+            # which must not alter what $$.Execution.Input reports.)
+            execution["Input"] = copy.deepcopy(data)
 
         if "RoleArn" not in execution:
             """
